@@ -164,7 +164,7 @@ struct server {
 	bool restart;   // asked for by the client side (service not reachable)
 	std::string exc;
 	std::mutex mx;
-	server():port(0),dead(false),restart(false){}
+	server():port(0),dead(false),restart(false),backend_port(0),dead_port(0){}
 
 	// a port below the ephemeral range (so a connect() that races with the listener can never
 	// self-connect), checked to be free right now
@@ -191,15 +191,28 @@ struct server {
 			catch(...) { std::lock_guard<std::mutex> g(self->mx); self->exc="unknown"; self->dead=true; }
 		}
 	};
-	void start(std::string const &a)
+	// "fwd": an SCGI service (unix socket) configured with forwarding.rules: SCRIPT_NAME /fwd is forwarded to the backend
+	// `backend_port` (an SCGI service over TCP with the echo application, api name "bk"), SCRIPT_NAME /dead to a port
+	// nobody listens on.  Everything else is served by the fwd service's own echo applications (probe).
+	int backend_port, dead_port;
+	void start(std::string const &a,int bk_port=0)
 	{
 		api=a;
 		for(int attempt=0;;attempt++) {
 			try {
 				cppcms::json::value cfg;
-				cfg["service"]["api"]=api;
-				if(api=="http") { port=free_port(); cfg["service"]["ip"]="127.0.0.1"; cfg["service"]["port"]=port; }
+				cfg["service"]["api"]=(api=="fwd" || api=="bk") ? std::string("scgi") : api;
+				if(api=="http" || api=="bk") { port=free_port(); cfg["service"]["ip"]="127.0.0.1"; cfg["service"]["port"]=port; }
 				else { sock="c01_"+api+".sock"; cfg["service"]["socket"]=sock; }
+				if(api=="fwd") {
+					backend_port=bk_port; dead_port=free_port();
+					cfg["forwarding"]["rules"][0]["script_name"]="/fwd";
+					cfg["forwarding"]["rules"][0]["ip"]="127.0.0.1";
+					cfg["forwarding"]["rules"][0]["port"]=backend_port;
+					cfg["forwarding"]["rules"][1]["script_name"]="/dead";
+					cfg["forwarding"]["rules"][1]["ip"]="127.0.0.1";
+					cfg["forwarding"]["rules"][1]["port"]=dead_port;
+				}
 				cfg["service"]["worker_threads"]=2;
 				cfg["service"]["input_buffer_size"]=4096;
 				cfg["http"]["script_names"][0]="/s";
@@ -233,7 +246,7 @@ struct server {
 	}
 	int connect_fd()
 	{
-		if(api=="http") {
+		if(api=="http" || api=="bk") {
 			int fd=::socket(AF_INET,SOCK_STREAM,0);
 			struct sockaddr_in a; memset(&a,0,sizeof(a)); a.sin_family=AF_INET; a.sin_addr.s_addr=htonl(INADDR_LOOPBACK); a.sin_port=htons(port);
 			if(::connect(fd,(struct sockaddr*)&a,sizeof(a))<0) { ::close(fd); return -1; }
@@ -273,7 +286,7 @@ static bool drain(int fd,outcome &o)
 	}
 }
 
-// close mode: "hc" half-close after the last byte then read to EOF; "rst" reset after the last byte
+// close mode: "hc" half-close after the last byte then read to EOF; "rst" reset after the last byte; "wt" wait for the answer
 static outcome play(server &s,std::vector<std::string> const &segs,std::string const &mode)
 {
 	outcome o;
@@ -309,7 +322,9 @@ static outcome play(server &s,std::vector<std::string> const &segs,std::string c
 		usleep(2000);
 	}
 	else {
-		::shutdown(fd,SHUT_WR);
+		// "hc": half-close, then read to EOF; "wt": keep the sending side open and wait for the server to answer and close
+		// (a gateway waiting for its answer; the forwarder treats a half-close of the client as a disconnect)
+		if(mode!="wt") ::shutdown(fd,SHUT_WR);
 		double deadline=now_s()+g_final_ms*1e-3;
 		while(!o.peer_closed) {
 			struct pollfd p; p.fd=fd; p.events=POLLIN; p.revents=0;
@@ -341,11 +356,23 @@ struct farm {
 	std::map<std::string,std::string> probe_req, probe_ref;
 	server &get(std::string const &api)
 	{
+		int bk_port=0;
+		if(api=="fwd") {
+			// the backend first; when it had to be rebuilt (new port) the forwarding service is rebuilt as well
+			std::unique_ptr<server> &b=m["bk"];
+			if(!b.get() || b->dead || b->restart) {
+				if(b.get()) b->stop();
+				b.reset(new server());
+				b->start("bk");
+				if(m["fwd"].get()) m["fwd"]->restart=true;
+			}
+			bk_port=b->port;
+		}
 		std::unique_ptr<server> &p=m[api];
 		if(!p.get() || p->dead || p->restart) {
 			if(p.get()) p->stop();
 			p.reset(new server());
-			p->start(api);
+			p->start(api,bk_port);
 		}
 		return *p;
 	}
